@@ -463,6 +463,9 @@ class Select(Suite):
                 "packs_accepted_by_git": len(d),
                 "chain_depth_of_the_reuse_deep_case": max([x[0] for x in d if x[4] == "reuse-deep"] or [0]),
                 "selections_replayed_by_the_model": sum(1 for c in cases if c.get("sel")),
+                "stored_deltas_whose_ActualSize_is_not_the_object_size": sum(
+                    1 for c in cases for o in ((((impl.get(c["id"]) or {}).get("extra") or {}).get("sel") or {}).get("objs") or [])
+                    if o[3] >= 0 and o[4] != o[2]),
                 "selected_graphs_with_a_cycle": sum(1 for x in d if x[3])}
 
 
